@@ -28,6 +28,9 @@ impl<'l, Data> SourceList<'l, Data> {
     pub open spec fn lookup(&self, t: TokenInner) -> Option<int> {
         if t.sid() < self@.len() && self@[t.sid()].tok().same_src(t) { Some(t.sid()) } else { None }
     }
+    /// monotone history witness (DESIGN 2.12): `get` has been called with this token (a generation-checked lookup was made)
+    #[verifier::opaque]
+    pub closed spec fn looked_up(t: TokenInner) -> bool { true }
     /// first vacant slot
     pub open spec fn first_vacant(&self, j: int) -> bool {
         &&& 0 <= j < self@.len() && self@[j].vacant()
@@ -69,9 +72,12 @@ impl<'l, Data> SourceList<'l, Data> {
             // once the caller is done with the slot, the list is well formed again provided id/sub-id were kept
             (final(r).tok().sid() == r.tok().sid() && final(r).tok().ssub() == 0) ==> final(self).wf(),
 //@ enditem
-//@ item src/list.rs / impl SourceList<'l, Data> / fn get props=C01,C06 ret=r
+//@ item src/list.rs / impl SourceList<'l, Data> / fn get props=C01,C06,C02 ret=r
+//@ entry
+        proof { reveal(SourceList::looked_up); }
 //@ spec
         ensures
+            Self::looked_up(token),
             self.lookup(token) matches Some(i) ==> r is Ok && *r->Ok_0 == self@[i],
             self.lookup(token) is None ==> r is Err && r->Err_0 is InvalidToken,
 //@ enditem
